@@ -12,6 +12,7 @@ import OFV.Model.C11
 import OFV.Proofs.C11
 import OFV.Proofs.C11Num
 import OFV.Proofs.C11Layers
+import OFV.Proofs.C11Step
 
 namespace OFV.C11
 open OFV OFV.Model.C11
@@ -261,6 +262,56 @@ theorem givens_emitted_structure (tol : Rat) (Q : Mat) (n : Nat) (ai : Bool) (ou
       simp only at h1 h2
       omega
 
+/-- `fermionic_gaussian_decomposition` (Model), any `N × 2N` input on which it returns: at most `2N - 1`
+layers, none empty; a layer is an optional leading `'pht'` followed by rotations of adjacent in-range modes
+`(j, j+1)`, `j + 1 ≤ N - 1`, ordered with gaps ≥ 2 (disjoint pairs); and in a layer that contains the
+particle-hole transformation (mode `N - 1`) no rotation touches mode `N - 1`. -/
+theorem gaussian_emitted_structure (tol : Rat) (W : Mat) (p : Nat) (out : GaussOut)
+    (h : decompGauss tol W p = .ok out) :
+    out.layers.length ≤ gaussDepth W.length ∧
+    ∀ l ∈ out.layers, l ≠ [] ∧ ∃ rs : List Rot,
+      (l = rs.map GOp.rot ∨ (l = GOp.pht :: rs.map GOp.rot ∧ ∀ r ∈ rs, r.j < W.length - 1)) ∧
+      (∀ r ∈ rs, r.i + 1 = r.j ∧ r.j < W.length) ∧ rs.Pairwise (fun r r' => r.j + 2 ≤ r'.j) := by
+  unfold decompGauss at h
+  simp only at h
+  split at h
+  · simp at h
+  · split at h
+    · simp at h
+    · cases hL : leftStage tol (gaussLeft W.length) W (Mat.identity W.length) with
+      | error e => simp [hL, bind, Except.bind] at h
+      | ok t =>
+        obtain ⟨M, V⟩ := t
+        cases hS : gaussSweep tol W.length (List.range (gaussDepth W.length)) M with
+        | error e => simp [hL, hS, bind, Except.bind] at h
+        | ok t2 =>
+          obtain ⟨ls, M'⟩ := t2
+          simp only [hL, hS, bind, Except.bind] at h
+          split at h
+          · simp at h
+          · rename_i x y hsq
+            injection h with h; subst h
+            obtain ⟨hlen, hall⟩ := gaussSweep_layers tol W.length _ _ _ _ hS
+            refine ⟨by simpa using hlen, ?_⟩
+            intro l hl
+            obtain ⟨hne, k, _, rs, hform, hs⟩ := hall l hl
+            obtain ⟨hmem, hpw⟩ := gauss_sublayer_structure (gaussLayer_pairwise _ k) hs
+            have hbounds : ∀ r ∈ rs, r.i + 1 = r.j ∧ r.j < W.length ∧ (k % 2 = 0 → r.j < W.length - 1) := by
+              intro r hr
+              obtain ⟨⟨i, j⟩, hp, h1, h2⟩ := hmem r hr
+              rw [mem_gaussLayer] at hp
+              simp only at h1 h2
+              omega
+            refine ⟨hne, rs, ?_, fun r hr => ⟨(hbounds r hr).1, (hbounds r hr).2.1⟩, hpw⟩
+            rcases hform with h1 | ⟨h1, hk⟩
+            · left; exact h1
+            · right; exact ⟨h1, fun r hr => (hbounds r hr).2.2 hk⟩
+
+-- non-vacuity: a BCS-like pairing matrix (u, v) = (3/5, 4/5): one 'pht' and one rotation are emitted
+example : (decompGauss (1/100000000) [[⟨3/5, 0⟩, 0, 0, ⟨4/5, 0⟩], [0, ⟨3/5, 0⟩, ⟨-4/5, 0⟩, 0]] 4).toOption.map
+    (fun o => o.layers.map (·.map fun op => match op with | .pht => (9, 9) | .rot r => r.idx)) =
+    some [[(9, 9)], [(0, 1)], [(9, 9)]] := by decide +kernel
+
 -- non-vacuity: the Model returns on a 3-4-5 rotation (one layer, one rotation) and on a 2 × 3 isometry
 example : (decompSquare (1/100000000) [[⟨3/5, 0⟩, ⟨4/5, 0⟩], [⟨-4/5, 0⟩, ⟨3/5, 0⟩]] false).toOption.map
     (fun r => r.1.map (·.map Rot.idx)) = some [[(0, 1)]] := by decide +kernel
@@ -306,6 +357,56 @@ example : (givensElems (1/100000000) 0 ⟨0, 1⟩ true).toOption.map (fun G => (
 theorem test_signed_zero_needed :
     (rotationOf 1 0 (-1)).g01 = (1 : GQ) ∧ (rotationOf 1 0 1).g01 = (-1 : GQ) := by
   constructor <;> (refine GQ.ext ?_ ?_ <;> simp [rotationOf, GQ.ofRat])
+
+/-! ## The elementary step of the column sweeps (numeric level) -/
+
+/-- In the exact regime, the step of `givens_decomposition(_square)` for position `(i, j)` —
+`G = givens_matrix_elements(conj M[i,j-1], conj M[i,j], 'right')`, `givens_rotate(M, G, j-1, j, 'col')` —
+makes entry `(i, j)` exactly zero (all matrices, all positions). -/
+theorem column_step_zeroes_target (tol : Rat) (htol : 0 < tol) (M : Mat) (i j : Nat) (G : G2)
+    (hi : i < M.length) (hj : 1 ≤ j) (hrow : j < (M.getD i []).length)
+    (hexa : small tol (M.get i (j - 1)).conj = true → (M.get i (j - 1)).conj = 0)
+    (hexb : small tol (M.get i j).conj = true → (M.get i j).conj = 0)
+    (hreal : realish tol (M.get i (j - 1)).conj (M.get i j).conj = true →
+      (M.get i (j - 1)).conj.im = 0 ∧ (M.get i j).conj.im = 0)
+    (hG : givensElems tol (M.get i (j - 1)).conj (M.get i j).conj true = .ok G) :
+    (rotateCols M G (j - 1) j).get i j = 0 := by
+  rw [rotateCols_get M G (j - 1) j i j hi (by omega) hrow (by omega)]
+  simp only [if_true]
+  unfold givensElems at hG
+  cases hC : cosSinPhase tol (M.get i (j - 1)).conj (M.get i j).conj with
+  | error e => simp [hC, bind, Except.bind] at hG
+  | ok t =>
+    obtain ⟨c, s, ph⟩ := t
+    simp only [hC, bind, Except.bind] at hG
+    injection hG with hG; subst hG
+    have hcsp := cosSinPhase_spec htol hexa hexb hC
+    have hz := assemble_zeroes hcsp true _ hreal
+    simp only [G2.Zeroes, if_true] at hz
+    exact conj_zero_relation _ _ _ _ (assemble_g10_real hcsp true _ hreal) hz
+
+/-- numeric zero persistence of one step: a row whose two mixed entries are both zero keeps them zero, and
+entries outside the two rotated columns are untouched (any `G`) -/
+theorem column_step_keeps_zero_pairs (M : Mat) (G : G2) (i' j x : Nat) (hi : i' < M.length) (hj : 1 ≤ j)
+    (hrow : j < (M.getD i' []).length) :
+    (M.get i' (j - 1) = 0 → M.get i' j = 0 →
+      (rotateCols M G (j - 1) j).get i' (j - 1) = 0 ∧ (rotateCols M G (j - 1) j).get i' j = 0) ∧
+    (x ≠ j → x ≠ j - 1 → (rotateCols M G (j - 1) j).get i' x = M.get i' x) := by
+  constructor
+  · intro h1 h2
+    rw [rotateCols_get M G (j - 1) j i' (j - 1) hi (by omega) hrow (by omega),
+        rotateCols_get M G (j - 1) j i' j hi (by omega) hrow (by omega)]
+    have hne : ¬ (j - 1 = j) := by omega
+    simp only [hne, if_false, if_true, h1, h2, gq_mul_zero, gq_add_zero, and_self]
+  · intro hx1 hx2
+    rw [rotateCols_get M G (j - 1) j i' x hi (by omega) hrow (by omega)]
+    simp [hx1, hx2]
+
+-- non-vacuity: the first step on a 3-4-5 rotation
+example : (givensElems (1/100000000) ((Mat.get [[⟨3/5, 0⟩, ⟨4/5, 0⟩], [⟨-4/5, 0⟩, ⟨3/5, 0⟩]] 0 0).conj)
+    ((Mat.get [[⟨3/5, 0⟩, ⟨4/5, 0⟩], [⟨-4/5, 0⟩, ⟨3/5, 0⟩]] 0 1).conj) true).toOption.map
+    (fun G => (rotateCols [[⟨3/5, 0⟩, ⟨4/5, 0⟩], [⟨-4/5, 0⟩, ⟨3/5, 0⟩]] G 0 1).get 0 1) = some 0 := by
+  decide +kernel
 
 /-! ## Known finding F11 -/
 
